@@ -29,4 +29,38 @@ PROPS = {
             "logging (tracing) and alloc::fmt::format are stubbed out",
         ],
     },
+    "C10": {
+        "design_ref": "DESIGN.md §3 C10",
+        "functions_encoded": [
+            "report::hybrid::EncryptedHybridReport::<BA8,BA3>::{from_bytes,try_from,encap_key_mk,mk_ciphertext,encap_key_btt,btt_ciphertext,key_id}",
+            "report::hybrid::Encrypted{Impression,Conversion}Report::from_bytes",
+        ],
+        "bounds": "records of every length 0..=146 bytes with arbitrary contents (length is a symbolic variable)",
+        "outside_claim": "HPKE authenticity / round-trip (X25519+HKDF+AES-GCM on symbolic bytes), so 'a flipped bit makes decryption fail' is NOT claimed; records longer than 125 bytes",
+        "assumptions": ["record bytes are a Bytes::from_static view of a leaked symbolic buffer",
+                        "logging (tracing) and alloc::fmt::format are stubbed out"],
+    },
+    "C11": {
+        "design_ref": "DESIGN.md §3 C11",
+        "functions_encoded": [
+            "report::hybrid::UniqueTag::{from_unique_bytes,shard_picker,serialize,deserialize}",
+            "<EncryptedHybridReport<BA8,BA3> as UniqueBytes>::unique_bytes",
+        ],
+        "bounds": "all 16-byte tags, all shard counts 1..=2^32-1, records of every length 0..=146",
+        "outside_claim": "the async reshard_aad exchange, Query::execute ordering, HashSet-based UniqueTagValidator (SipHash on symbolic bytes)",
+        "assumptions": ["logging (tracing) and alloc::fmt::format are stubbed out"],
+    },
+    "C12": {
+        "design_ref": "DESIGN.md §3 C12",
+        "functions_encoded": [
+            "protocol::dp::ShiftedTruncatedDiscreteLaplace::{new,sample_shares} (BA8/BA16/BA32, both directions)",
+            "protocol::dp::NoiseParams::new",
+            "protocol::ipa_prf::oprf_padding::insecure::OPRFPaddingDp::{new,get_shift}, distributions::TruncatedDoubleGeometric::new",
+        ],
+        "bounds": "every sample of the support 0..=2*shift, every shift <= 2^20 with 2*shift < 2^width, widths 8/16/32, both directions; all non-NaN f64 / u32 parameter values for the validators",
+        "outside_claim": "the (epsilon, delta) distribution law, find_smallest_n minimality, achieved delta (libm powf/exp, unbounded search, probabilities); NaN parameters; dummy-record generation (async)",
+        "assumptions": ["the truncated sampler is replaced by its contract: an arbitrary value of 0..=2*shift",
+                        "OPRFPaddingDp::new / get_shift stubbed in the mapping harnesses (shift symbolic); find_smallest_n stubbed to 'some n >= sensitivity' in the validator harness",
+                        "logging (tracing) and alloc::fmt::format are stubbed out"],
+    },
 }
